@@ -83,7 +83,7 @@ func (x *c09World) Apply(op bfs.Op) (fs []bfs.Finding) {
 	rn, ru := x.n.exec(op), x.u.exec(op)
 	for _, r := range []opResult{rn, ru} {
 		if r.panic != "" {
-			add("panic:"+ev.PanicSite(r.panic), r.panic)
+			add(panicKey(r.panic), r.panic)
 			return
 		}
 	}
@@ -95,6 +95,22 @@ func (x *c09World) Apply(op bfs.Op) (fs []bfs.Finding) {
 	if a, b := fmt.Sprint(names(x.n.memBlobs())), fmt.Sprint(names(x.u.memBlobs())); a != b {
 		add("memory-diverges:"+op.Name, fmt.Sprintf("after %s(%s) the in-memory tables differ: no-upstream %s vs upstream %s", op.Name, op.Arg, a, b))
 		return
+	}
+	if op.Name == "AddHardCert" && id != nil {
+		// "in-memory hardware certificates stay listed and usable": an accepted one is held in memory from then on (the
+		// listing formulas below trust the reflected table, so its contents are pinned here)
+		for _, side := range []struct {
+			w   *shimWorld
+			r   opResult
+			tag string
+		}{{x.n, rn, "no-upstream"}, {x.u, ru, "upstream"}} {
+			if side.r.err == nil && setOf(side.w.memBlobs())[string(id.blob)] == 0 {
+				add("addhardcert:accepted-but-not-held:"+side.tag, fmt.Sprintf("AddHardCert(%s) succeeded in %s mode but the certificate is not in the in-memory table (underlying agent held it before: %v)", op.Arg, side.tag, uaHadBefore))
+			}
+		}
+		if len(fs) > 0 {
+			return
+		}
 	}
 	switch op.Name {
 	case "List", "Signers":
